@@ -5,6 +5,8 @@ package diam
 
 import (
 	"bytes"
+	"encoding/xml"
+	"io"
 	"encoding/json"
 	"fmt"
 	"os"
@@ -77,6 +79,15 @@ func vU8(tag string) uint8   { return uint8(zzNext(tag)) }
 func vU16(tag string) uint16 { return uint16(zzNext(tag)) }
 func vU32(tag string) uint32 { return uint32(zzNext(tag)) }
 func vU64(tag string) uint64 { return zzNext(tag) }
+func vPick32(tag string, vals ...uint32) uint32 {
+	v := uint32(zzNext(tag))
+	for _, x := range vals {
+		if x == v {
+			return v
+		}
+	}
+	panic(zzDiverged{"vPick32 value not in set"})
+}
 func vBool(tag string) bool  { return zzNext(tag) == 1 }
 func vLen(tag string, lo, hi int) int {
 	v := int(zzNext(tag))
@@ -185,7 +196,7 @@ func vAbstractDict() *dict.Parser {
 			}
 			seen[key] = true
 			b := get(e.App)
-			fmt.Fprintf(b, `<command code="%d" short="X%d" name="Cmd%d"><request>`, e.Code, i, i)
+			fmt.Fprintf(b, `<command code="%d" short="XX" name="Abstract-Command"><request>`, e.Code)
 			for k := 0; k < e.NReq; k++ {
 				b.WriteString(`<rule avp="A" required="false"/>`)
 			}
@@ -234,3 +245,22 @@ func vAbstractDict() *dict.Parser {
 func zzQuiesce()      { for i := 0; i < 200; i++ { runtime.Gosched() } }
 func zzAdvance() bool { return false }
 func zzNow() int64    { return 0 }
+
+// vDictFile natively: the File is written out as dictionary XML and parsed by the real loader.
+func vDictFile(f *dict.File) io.Reader {
+	var b bytes.Buffer
+	b.WriteString("<diameter>\n")
+	for _, app := range f.App {
+		fmt.Fprintf(&b, "<application id=\"%d\" type=%q name=%q>\n", app.ID, app.Type, app.Name)
+		for _, c := range app.Command {
+			fmt.Fprintf(&b, "<command code=\"%d\" short=%q name=%q><request><rule avp=\"A\"/></request><answer><rule avp=\"A\"/></answer></command>\n", c.Code, c.Short, c.Name)
+		}
+		for _, a := range app.AVP {
+			fmt.Fprintf(&b, "<avp name=%q code=\"%d\" vendor-id=\"%d\"><data type=%q/></avp>\n", a.Name, a.Code, a.VendorID, a.Data.TypeName)
+		}
+		b.WriteString("</application>\n")
+	}
+	b.WriteString("</diameter>\n")
+	_ = xml.Header
+	return &b
+}
